@@ -186,7 +186,7 @@ def run(rep):
         if a not in src: rep.canary(name, False, 'mutation site not found'); continue
         try:
             E = pyvc.run_function(core.Fn('params_generator.py', 'ParamsGenerator._get_op_scope', src_override=src.replace(a, b)), scope.OpScope())
-            bad = [ob.label for ob, st, dt, det, mv in pyvc.decide_parallel(E, E.spec, timeout=20000) if st != 'proved']; rep.canary(name, bool(bad), str(bad[:3]))
+            bad = [ob.label for ob, st, dt, det, mv in pyvc.decide_parallel(E, E.spec, timeout=20000, canary=True) if st != 'proved']; rep.canary(name, bool(bad), str(bad[:3]))
         except pyvc.Unsupported as e: rep.canary(name, True, str(e))
     rep.cover('scope examples', _native_scopes([0, -1, 1], 2)[2] == 'n0;n1;')
     rep.assume('the interpreter wrapper returns, for subgraph index s, a map whose keys are the tensor names of subgraph s (external LiteRT runtime)')
